@@ -358,7 +358,7 @@ def run(ctx):
             # which pair output goes to the first write_all
             outs = []
             for (_bb, callee, args, res) in p.events:
-                if callee.endswith("write_all"):
+                if callee.endswith("write_all") or callee.endswith("::extend_from_slice") or (callee.endswith("::extend") and "Vec" in callee):
                     outs.append(N(args[1]) if len(args) > 1 else None)
             if len(outs) >= 2 and order_ok is None:
                 def fieldno(e):
@@ -387,9 +387,12 @@ def run(ctx):
             c = t.get("res") or ""
             if c.endswith("from_elem"):
                 zero_fill = const_int(t["args"][0]) == 0
+            elif c.endswith("Vec::<T, A>::resize") and len(t["args"]) == 3:
+                # data followed by resize(padded_len, 0)
+                zero_fill = const_int(t["args"][2]) == 0
         ok = ("Rem", 8) in consts and ("Sub", 8) in consts and all(v in (8, 0) for _, v in consts)
         ctx.ob("BLOCK", "pad|multiple-of-8", ok, f"pad_buffer arithmetic constants: {sorted(consts)}; must round up with % 8 and 8 - r", pb_.file, pb_.line)
-        ctx.ob("BLOCK", "pad|zero-fill", zero_fill, "padding bytes are zero (vec![0; n])", pb_.file, pb_.line)
+        ctx.ob("BLOCK", "pad|zero-fill", zero_fill, "padding bytes are zero (vec![0; n] or resize(n, 0))", pb_.file, pb_.line)
 
 
 def _const_source(body, o):
